@@ -5,6 +5,7 @@ import (
 	"fmt"
 	"net"
 	"runtime"
+	"strings"
 	"sync"
 	"time"
 
@@ -109,13 +110,13 @@ func runC17(b *mon.B) {
 		if k%9 == 0 {
 			nc = 0
 		}
-		cancelMoment := []string{"after-setup", "before-dial", "mixed"}[r.Intn(3)]
+		cancelMoment := []string{"after-setup", "before-dial", "mixed", "listener-closed-externally"}[r.Intn(4)]
 		states := make([]string, nc)
 		for i := range states {
 			states[i] = c17States[r.Intn(len(c17States))]
 		}
 		late := 0
-		if cancelMoment != "after-setup" {
+		if cancelMoment == "before-dial" || cancelMoment == "mixed" {
 			late = 1 + r.Intn(4)
 		}
 		if cancelMoment == "before-dial" {
@@ -199,6 +200,12 @@ func runC17(b *mon.B) {
 		if cancelMoment == "after-setup" || cancelMoment == "mixed" {
 			srv.Cancel()
 		}
+		if cancelMoment == "listener-closed-externally" {
+			// the embedding program closes the listener itself (and cancels): Accept fails with a
+			// permanent error while connections are still being handled
+			srv.L.Close()
+			srv.Cancel()
+		}
 		// connections that arrive around/after cancellation, their first action delayed
 		for i := 0; i < late; i++ {
 			c := world.NewConn(simnet.RemoteFor(1000 + i))
@@ -252,7 +259,8 @@ func runC17(b *mon.B) {
 	}
 
 	// ---------------- pacing / idle scenarios ----------------
-	pacing := []string{"silent", "partial-header-then-silence", "partial-body-then-silence", "byte-just-before-each-deadline", "periodic-10s-gaps", "packet-then-silence", "slow-second-packet"}
+	pacing := []string{"silent", "partial-header-then-silence", "partial-body-then-silence", "byte-just-before-each-deadline", "periodic-10s-gaps", "packet-then-silence", "slow-second-packet",
+		"proxy:silent", "proxy:partial-line-then-silence", "proxy:line-then-silence", "proxy:line-and-packet-then-silence"}
 	for k := 0; k < b.N(40, 900); k++ {
 		caseNo++
 		pat := pacing[k%len(pacing)]
@@ -266,7 +274,11 @@ func runC17(b *mon.B) {
 		tp := tap.New(world)
 		h := &c17Handler{release: make(chan struct{})}
 		close(h.release)
-		srv := kit.Start(world, tp, tap.NewLogger(false), &tap.Static{Secret: secret, Handler: tp.Wrap("initial", h)})
+		var sopts []tq.Option
+		if strings.HasPrefix(pat, "proxy:") {
+			sopts = append(sopts, tq.SetUseProxy(true))
+		}
+		srv := kit.Start(world, tp, tap.NewLogger(false), &tap.Static{Secret: secret, Handler: tp.Wrap("initial", h)}, sopts...)
 		c := srv.L.Dial(simnet.RemoteFor(k + 1))
 		typ := 1 + r.Intn(3)
 		mk := func(seq int, sid uint32) []byte {
@@ -297,6 +309,19 @@ func runC17(b *mon.B) {
 			expectHandlers = 12
 			expectOpen = true
 		case "packet-then-silence":
+			c.Feed(mk(1, 5))
+			c.Stall()
+			expectHandlers = 1
+		case "proxy:silent":
+			c.Stall()
+		case "proxy:partial-line-then-silence":
+			c.Feed([]byte("PROXY TCP4 192.0.2.1 192."))
+			c.Stall()
+		case "proxy:line-then-silence":
+			c.Feed(proxyLine())
+			c.Stall()
+		case "proxy:line-and-packet-then-silence":
+			c.Feed(proxyLine())
 			c.Feed(mk(1, 5))
 			c.Stall()
 			expectHandlers = 1
